@@ -74,7 +74,7 @@ class Parser:
         while self.peek() is not None and self.peek().text == ".":
             self.eat(".")
             m = self.eat()
-            if m.text not in ("wrapping_add", "wrapping_sub", "wrapping_mul"):
+            if m.text not in ("wrapping_add", "wrapping_sub", "wrapping_mul", "saturating_sub", "saturating_add"):
                 raise ExtractError("unsupported method `%s` in straight-line function" % m.text)
             self.eat("(")
             a = self.expr()
@@ -105,8 +105,13 @@ def render(n, mode, ty):
             return "sub(sub(0%s, %s), 1%s)" % (ty, a, ty)
         return "(!%s)" % a
     if k == "call":
+        a, b = render(n.args[1], mode, ty), render(n.args[2], mode, ty)
+        if n.args[0] == "saturating_sub":
+            return "(if %s < %s { 0%s } else { sub(%s, %s) })" % (a, b, ty, a, b)
+        if n.args[0] == "saturating_add":
+            return "(if add(%s, %s) < %s { sub(0%s, 1%s) } else { add(%s, %s) })" % (a, b, a, ty, ty, a, b)
         f = {"wrapping_add": "add", "wrapping_sub": "sub", "wrapping_mul": "mul"}[n.args[0]]
-        return "%s(%s, %s)" % (f, render(n.args[1], mode, ty), render(n.args[2], mode, ty))
+        return "%s(%s, %s)" % (f, a, b)
     if k == "bin":
         op, a, b = n.args
         if op in ("<<", ">>") and b.kind != "lit":
